@@ -154,6 +154,33 @@ def has_multiqn_identity(e):
     return any(has_multiqn_identity(x) for x in e[1:] if isinstance(x, tuple))
 
 
+def aliasing_of_sums(run, rng, Op, OpSum):
+    """results of + and - are new objects: adding to a result in place must not change the operands (also when the other operand is
+    empty and the result equals an operand in value)"""
+    n = 0
+    for _ in range(40):
+        a = OpSum([Op("X", 0, float(rng.integers(1, 5))), Op("Z", 1, float(rng.integers(1, 5)))])
+        z = Op("Y", 2, 1.0)
+        empties = [OpSum([]), [], (a - a).simplify()]
+        for name, make in (("a+empty", lambda e: a + e), ("a-empty", lambda e: a - e), ("empty+a", lambda e: OpSum(list(e)) + a)):
+            for e in empties:
+                before = [(t.symbol, tuple(t.dofs), complex(t.factor)) for t in a]
+                try:
+                    c = make(e)
+                    c += z
+                except Exception as ex:  # noqa
+                    run.count("aliasing:raised:" + type(ex).__name__)
+                    continue
+                n += 1
+                after = [(t.symbol, tuple(t.dofs), complex(t.factor)) for t in a]
+                if after != before or c is a:
+                    run.violation(f"aliasing:{name}:result-is-the-operand",
+                                  dict(expression=name, operand_before=[list(map(str, t)) for t in before], operand_after=[list(map(str, t)) for t in after],
+                                       what="in-place addition to the RESULT of a sum with an empty operand changed the other operand"))
+                    return n
+    return n
+
+
 def main():
     run = Run("C15", level="proof")
     quick = run.tier != "thorough"
@@ -207,6 +234,7 @@ def main():
                    rule="random expression programs (depth<=5) over Op/OpSum: + - * neg scalar-multiple (left/right, int/float/complex/NumPy) "
                         "/ simplify; 1-2 qn components, repeated DoFs, identity factors; distinct = distinct RPN text with a non-empty ok result")
     try:
+        run.cov["aliasing_cases"] = aliasing_of_sums(run, rng, Op, OpSum)
         import search_c15
     except ImportError:
         search_c15 = None
